@@ -44,7 +44,9 @@ LEMMAS = {
     "lemma_walk_back": {"C29"}, "lemma_rfind_line_start": {"C29"}, "lemma_find_next_line": {"C29"},
     "lemma_lines_count": {"C29"},
 }
-UNVERIFIED = {"C29": [
+UNVERIFIED = {"C28": [
+    "only the position conversions are under contract here (they do not panic, and line_char_to_offset returns an in-range character boundary for every line / character); what each handler does with that offset (completions, hover, signature help ...) is covered by the bounded position sweep only",
+], "C29": [
     "the callers of these four functions in lsp.rs (handle_* request handlers): that they pass a Garden position whose offsets are char boundaries of the same text and whose line numbers are the lines of those offsets (that is C23's pos_ok, proved for lexer positions only)",
     "second sentence of C29 (text edits applied as LSP defines give the command-line result): every edit the server returns for formatting / code actions replaces whole_document_range(src) by the new text, so it reduces to whole_document_range covering the document (proved here) and to the handlers passing the same offsets to the same refactoring functions (not under contract); rename edits (handle_rename) are per-occurrence ranges built by garden_pos_to_lsp_range (proved here)",
     "`as u32` truncation of line/character: the contracts state equality of the truncated values; documents with more than u32::MAX lines or UTF-16 units on a line are outside the LSP protocol",
@@ -214,6 +216,9 @@ WITNESSES = [
     _lsp_witness('fun foo(): Int { 1 }\r\n\r\nlet s = "\u00e9\U0001F600"  let r = foo()\r\n  foo( )\r\nfoo( )', "CRLF line endings, positions on later lines"),
     _lsp_witness('// \u4e16\r\nfun foo(): Int { 1 }\r\nlet t = ("\u754c", foo( ))\r\n', "CRLF with multi-byte characters before the line"),
 ]
+_SWEEP = common.lsp_sweep_witnesses(r"lsppos\.line_char_to_offset", ["C28", "C29"])
+WITNESSES.append({"match": r"lsppos\.line_char_to_offset", "kind": "lsp-sweep", "props": ["C28", "C29"], "input": _SWEEP, "expect": {}, "timeout": 600,
+                  "note": "position sweeps over %d documents (every UTF-16 column, including the middle of surrogate pairs and out-of-range positions)" % len(_SWEEP)})
 
 
 def build(tier):
@@ -240,16 +245,17 @@ def build(tier):
                       "    lemma_cix(src@, lstart(src@, cix(src@, offset as int)));\n"
                       "    lemma_off_mono(src@, lstart(src@, cix(src@, offset as int)), cix(src@, offset as int)); }"),
         ],
-        props=c29))
+        props=c29, safety_props={"C28", "C29"}))
     u.add_fn(LSP, "garden_pos_to_lsp_range", rules=RULES, contract=Contract(
         requires=[("start_on_char_boundary", clamp_cb("pos.start_offset")), ("end_on_char_boundary", clamp_cb("pos.end_offset"))],
         ensures=[("start_is_lsp_position", o2l("pos.start_offset", "pos.line_number").replace("r.", "r.start.")),
                  ("end_is_lsp_position", o2l("pos.end_offset", "pos.end_line_number").replace("r.", "r.end."))],
-        props=c29))
+        props=c29, safety_props={"C28", "C29"}))
     M = "cix(src@, line_start as int)"
     u.add_fn(LSP, "line_char_to_offset", rules=RULES, contract=Contract(
         ensures=[("is_offset_of_lsp_position", "r == lc_to_off(src@, line as nat, character as nat)"),
-                 ("on_char_boundary", "is_cbt(src@, r as int)"), ("in_range", "r <= blen_cs(src@)")],
+                 # the handlers slice the document at this offset: off a character boundary or past the end they panic (C28)
+                 ("on_char_boundary", "is_cbt(src@, r as int)", {"C28", "C29"}), ("in_range", "r <= blen_cs(src@)", {"C28", "C29"})],
         body_prelude="proof { lemma_cix(src@, 0); lemma_off_zero(src@); }",
         loops={
             1: dict(invariant=[
@@ -294,13 +300,13 @@ def build(tier):
             dict(anchor="offset", where="before", nth=-1, name="end_of_text",
                  text="proof { lemma_off_zero(src@); lemma_cix(src@, src@.len() as int); }"),
         ],
-        props=c29))
+        props=c29, safety_props={"C28", "C29"}))
     u.add_fn(LSP, "whole_document_range", rules=RULES, contract=Contract(
         ensures=[("starts_at_origin", "r.start.line == 0 && r.start.character == 0"),
                  ("ends_at_lsp_position_of_end_of_text",
                   "r.end.line == line_ix(src@, src@.len() as int) as u32 && r.end.character == off_to_character(src@, src@.len() as int) as u32")],
         body_prelude="proof { lemma_lines_count(src@); }",
-        props=c29))
+        props=c29, safety_props={"C28", "C29"}))
     u.add_canary_proof()
     u.raw(common.FOOTER)
     return u
